@@ -114,6 +114,7 @@ def kernel_obligations(rep, tag, header, inst, per_shard_timeout=None, single_ti
     the property-level oracles still judge it). Returns {key: bool}."""
     import concurrent.futures as cf
     if not inst: return {}
+    ftag = f"{tag}_{rep.tier[0]}{rep.seed}"       # file names are private to this (property, tier, seed): runs of other seeds may be going on
     if per_shard_timeout is None: per_shard_timeout = 300 if rep.tier == "quick" else 900
     if single_timeout is None: single_timeout = 90 if rep.tier == "quick" else 300
     nsh = max(1, min(NPROC, (len(inst) + 7) // 8))
@@ -127,13 +128,13 @@ def kernel_obligations(rep, tag, header, inst, per_shard_timeout=None, single_ti
     def run_shard(name, items, timeout):
         """returns ({key: bool}, ok, output, seconds) for evaluation followed by the lemmas"""
         defs = [header] + [l for (k, dl, e) in items for l in dl] + [f"Definition o_{k} := {e}." for (k, dl, e) in items]
-        pe = f"{COQ}/Cases_{tag}_{name}_eval.v"
+        pe = f"{COQ}/Cases_{ftag}_{name}_eval.v"
         open(pe, "w").write("\n".join(defs + ["Definition all_results := [" + "; ".join(f"({k}, o_{k})" for (k, dl, e) in items) + "].", "Eval vm_compute in all_results."]) + "\n")
         ok, out, dt = coqc_file(os.path.basename(pe), timeout=timeout)
         res = {k: (v == "true") for k, v in re.findall(r"\(\s*(\d+),\s*(true|false)\)", out)}
         clean(pe)
         if not ok or len(res) != len(items): return {}, False, ("TIMEOUT " if dt >= timeout - 2 else "") + out, dt
-        pl = f"{COQ}/Cases_{tag}_{name}.v"
+        pl = f"{COQ}/Cases_{ftag}_{name}.v"
         open(pl, "w").write("\n".join(defs + [f"Lemma ob_{k} : o_{k} = {'true' if res[str(k)] else 'false'}. Proof. vm_compute. reflexivity. Qed." for (k, dl, e) in items]) + "\n")
         ok2, out2, dt2 = coqc_file(os.path.basename(pl), timeout=2 * timeout)
         keep = pl if name == "0" else None
@@ -161,7 +162,7 @@ def kernel_obligations(rep, tag, header, inst, per_shard_timeout=None, single_ti
             if ok: results.update(res)
             else: timeouts.append(str(it[0]))
     if timeouts: rep.notes.setdefault("validator_timeouts", []).extend(f"{tag}:{k}" for k in timeouts)
-    rep.notes.setdefault("obligation_files", []).append(f"{COQ}/Cases_{tag}_0.v (+ {len(shards) - 1} further shards, removed after checking)")
+    rep.notes.setdefault("obligation_files", []).append(f"{COQ}/Cases_{ftag}_0.v (+ {len(shards) - 1} further shards, removed after checking)")
     rep.notes["obligation_seconds"] = round(rep.notes.get("obligation_seconds", 0) + total, 1)
     return {str(k): v for k, v in results.items()}
 
